@@ -81,7 +81,7 @@ def histories(draw, big=False, want_logs=False, transports=('pty', 'pty', 'fd', 
         elif k == 6:
             op = ['writelines', draw(st.lists(P, min_size=0, max_size=3))]
         elif k == 7 and transport == 'pty':
-            op = ['sendcontrol', draw(st.sampled_from(list('acdgzAZ') + list(CONTROL_TABLE) + ['1', '!', 'é']))]
+            op = ['sendcontrol', draw(st.sampled_from(list('abcdefghijklmnopqrstuvwxyz') + list('AGMZ') + list(CONTROL_TABLE) + ['1', '!', 'é']))]
         elif k == 8 and transport == 'pty':
             op = [draw(st.sampled_from(['sendeof', 'sendintr']))]
         elif k >= 9:
